@@ -490,3 +490,307 @@ example : createKMedoids exD [0, 1, 2, 3, 4, 5] (some [2, 3]) (fun _ l => l.reve
     some [(1, [0, 1, 2]), (4, [3, 4, 5])] := by decide
 
 end C17.KMed
+
+/-! ## `create_hierarchical_kmedoids`: the per-split contract -/
+
+namespace C17.KMed
+
+/-- contract of `create_kmedoids(&data, 2, d)` used for one split (what `result_is_partition`,
+    `nearest_own_medoid`, `key_in_own_cluster` give for pairwise different points and a proper distance table) -/
+structure SplitOk (d : Nat → Nat → Int) (split : List Nat → Clusters) : Prop where
+  ok : ∀ data : List Nat, data.Nodup → 2 ≤ data.length →
+    (∀ x, (ptsOf (split data)).count x = data.count x) ∧
+    (∀ kv ∈ split data, kv.1 ∈ kv.2) ∧
+    (∀ kv ∈ split data, ∀ p ∈ kv.2, ∀ kv' ∈ split data, d p kv.1 ≤ d p kv'.1)
+
+/-- INDEPENDENT SPEC of one split: `part` partitions `parent`, every medoid lies in its own cluster, and no
+    point of the parent is closer to a SIBLING's medoid than to its own -/
+def ChildOk (d : Nat → Nat → Int) (parent : List Nat) (part : Clusters) : Prop :=
+  (∀ x, (ptsOf part).count x = parent.count x) ∧ (∀ kv ∈ part, kv.1 ∈ kv.2) ∧
+    (∀ kv ∈ part, ∀ p ∈ kv.2, ∀ kv' ∈ part, d p kv.1 ≤ d p kv'.1)
+
+/-- the clusters one entry of `current_clusters` contributes to the tier -/
+def childrenOf (split : List Nat → Clusters) (e : Option Nat × List Nat) : Clusters :=
+  if e.2.length < 2 then
+    match keyOf e.1 e.2 with
+    | none => []
+    | some key => [(key, e.2)]
+  else split e.2
+
+/-- the entries it contributes to `next_tier_clusters` -/
+def nextOf (split : List Nat → Clusters) (e : Option Nat × List Nat) : List (Option Nat × List Nat) :=
+  if e.2.length < 2 then
+    match keyOf e.1 e.2 with
+    | none => []
+    | some _ => [e]
+  else (split e.2).map (fun kv => (some kv.1, kv.2))
+
+theorem cmInsert_fresh (cl : Clusters) (k : Nat) (v : List Nat) (h : k ∉ keysOf cl) :
+    cmInsert cl k v = cl ++ [(k, v)] := by
+  unfold cmInsert
+  have : cl.any (fun kv => kv.1 == k) = false := by
+    rw [← Bool.not_eq_true]; exact fun h' => h ((any_key_iff k cl).mp h')
+  simp [this]
+
+theorem cmExtend_fresh : ∀ (new cl : Clusters), (keysOf cl ++ keysOf new).Nodup → cmExtend cl new = cl ++ new := by
+  intro new
+  induction new with
+  | nil => intro cl _; simp [cmExtend]
+  | cons kv rest ih =>
+    intro cl h
+    have hk : kv.1 ∉ keysOf cl := by
+      intro hm
+      rw [List.nodup_append] at h
+      exact h.2.2 kv.1 hm kv.1 (by simp [keysOf]) rfl
+    unfold cmExtend
+    simp only [List.foldl_cons]
+    rw [cmInsert_fresh cl kv.1 kv.2 hk]
+    have := ih (cl ++ [(kv.1, kv.2)]) (by
+      simp only [keysOf, List.map_append, List.map_cons, List.map_nil, List.append_assoc, List.singleton_append] at h ⊢
+      exact h)
+    unfold cmExtend at this
+    rw [this]
+    simp
+
+theorem keysOf_append (a b : Clusters) : keysOf (a ++ b) = keysOf a ++ keysOf b := by simp [keysOf]
+
+/-- when no key is produced twice, one pass of the scan closure simply concatenates the contributions of the
+    entries (the `HashMap` inserts never overwrite) -/
+theorem hierStep_eq (split : List Nat → Clusters) : ∀ (cur : List (Option Nat × List Nat)) (tier : Clusters)
+    (next : List (Option Nat × List Nat)), (keysOf tier ++ keysOf (cur.flatMap (childrenOf split))).Nodup →
+    hierStep split cur (tier, next) = (tier ++ cur.flatMap (childrenOf split), next ++ cur.flatMap (nextOf split)) := by
+  intro cur
+  induction cur with
+  | nil => intro tier next _; simp [hierStep]
+  | cons e rest ih =>
+    intro tier next h
+    obtain ⟨medoid, data⟩ := e
+    simp only [List.flatMap_cons, keysOf_append] at h
+    by_cases hs : data.length < 2
+    · cases hk : keyOf medoid data with
+      | none =>
+        have hc : childrenOf split (medoid, data) = [] := by simp [childrenOf, hs, hk]
+        have hn : nextOf split (medoid, data) = [] := by simp [nextOf, hs, hk]
+        simp only [hierStep, hs, if_true, hk, List.flatMap_cons, hc, hn, List.nil_append]
+        apply ih
+        rw [hc] at h; simpa [keysOf] using h
+      | some key =>
+        have hc : childrenOf split (medoid, data) = [(key, data)] := by simp [childrenOf, hs, hk]
+        have hn : nextOf split (medoid, data) = [(medoid, data)] := by simp [nextOf, hs, hk]
+        simp only [hierStep, hs, if_true, hk, List.flatMap_cons, hc, hn]
+        rw [hc] at h
+        have hfresh : key ∉ keysOf tier := by
+          intro hm
+          rw [List.nodup_append] at h
+          exact h.2.2 key hm key (by simp [keysOf]) rfl
+        rw [cmInsert_fresh tier key data hfresh, ih]
+        · simp
+        · rw [keysOf_append]; simpa [keysOf, List.append_assoc] using h
+    · have hc : childrenOf split (medoid, data) = split data := by simp [childrenOf, hs]
+      have hn : nextOf split (medoid, data) = (split data).map (fun kv => (some kv.1, kv.2)) := by simp [nextOf, hs]
+      simp only [hierStep, hs, if_false, List.flatMap_cons, hc, hn]
+      rw [hc] at h
+      have hfresh : (keysOf tier ++ keysOf (split data)).Nodup := by
+        rw [← List.append_assoc] at h
+        exact (List.nodup_append.mp h).1
+      rw [cmExtend_fresh (split data) tier hfresh, ih]
+      · simp
+      · rw [keysOf_append]; simpa [List.append_assoc] using h
+
+/-- state of the scan: the entries partition the points; no entry is empty; a remembered medoid lies in its data -/
+structure CurOk (points : List Nat) (cur : List (Option Nat × List Nat)) : Prop where
+  count : ∀ x, (cur.flatMap (·.2)).count x = points.count x
+  entry : ∀ e ∈ cur, e.2 ≠ [] ∧ ∀ m, e.1 = some m → m ∈ e.2
+
+theorem keyOf_mem (medoid : Option Nat) (data : List Nat) (hne : data ≠ []) (hm : ∀ m, medoid = some m → m ∈ data) :
+    ∃ key, keyOf medoid data = some key ∧ key ∈ data := by
+  cases medoid with
+  | some m => exact ⟨m, rfl, hm m rfl⟩
+  | none =>
+    cases data with
+    | nil => exact absurd rfl hne
+    | cons a r => exact ⟨a, rfl, by simp⟩
+
+/-- what one entry contributes is a valid split of its data -/
+theorem childrenOf_ok (d : Nat → Nat → Int) (split : List Nat → Clusters) (S : SplitOk d split)
+    (e : Option Nat × List Nat) (hnd : e.2.Nodup) (hne : e.2 ≠ []) (hm : ∀ m, e.1 = some m → m ∈ e.2) :
+    ChildOk d e.2 (childrenOf split e) := by
+  unfold childrenOf
+  by_cases hs : e.2.length < 2
+  · obtain ⟨key, hk, hkm⟩ := keyOf_mem e.1 e.2 hne hm
+    simp only [hs, if_true, hk]
+    refine ⟨by simp [ptsOf], ?_, ?_⟩
+    · intro kv hkv; simp at hkv; subst hkv; exact hkm
+    · intro kv hkv p _ kv' hkv'
+      simp at hkv hkv'; subst hkv; subst hkv'; exact Int.le_refl _
+  · simp only [hs, if_false]
+    exact S.ok e.2 hnd (by omega)
+
+theorem nodup_of_count_eq {l points : List Nat} (hp : points.Nodup) (h : ∀ x, l.count x = points.count x) : l.Nodup :=
+  (List.perm_iff_count.mpr h).nodup_iff.mpr hp
+
+theorem entry_nodup {points : List Nat} {cur : List (Option Nat × List Nat)} (hp : points.Nodup) (C : CurOk points cur) :
+    ∀ e ∈ cur, e.2.Nodup := by
+  have hnd : (cur.flatMap (·.2)).Nodup := nodup_of_count_eq hp C.count
+  intro e he
+  obtain ⟨l1, l2, rfl⟩ := List.append_of_mem he
+  simp only [List.flatMap_append, List.flatMap_cons] at hnd
+  exact (List.nodup_append.mp (List.nodup_append.mp hnd).2.1).1
+
+/-- keys of clusters that contain their own key and are pairwise disjoint are pairwise different -/
+theorem keys_nodup_of_pts_nodup : ∀ cl : Clusters, (ptsOf cl).Nodup → (∀ kv ∈ cl, kv.1 ∈ kv.2) → (keysOf cl).Nodup := by
+  intro cl
+  induction cl with
+  | nil => intro _ _; simp [keysOf]
+  | cons kv rest ih =>
+    intro hnd hk
+    simp only [ptsOf, List.flatMap_cons] at hnd
+    obtain ⟨h1, h2, h3⟩ := List.nodup_append.mp hnd
+    simp only [keysOf, List.map_cons, List.nodup_cons]
+    refine ⟨?_, ih h2 (fun kv' h' => hk kv' (List.mem_cons_of_mem _ h'))⟩
+    intro hm
+    rw [List.mem_map] at hm
+    obtain ⟨kv', hkv', heq⟩ := hm
+    have h4 : kv'.1 ∈ kv'.2 := hk kv' (List.mem_cons_of_mem _ hkv')
+    have h5 : kv'.1 ∈ List.flatMap (·.2) rest := List.mem_flatMap.mpr ⟨kv', hkv', h4⟩
+    exact h3 kv.1 (hk kv (by simp)) kv'.1 h5 heq.symm
+
+theorem count_children (d : Nat → Nat → Int) (split : List Nat → Clusters) :
+    ∀ cur : List (Option Nat × List Nat), (∀ e ∈ cur, ChildOk d e.2 (childrenOf split e)) →
+    ∀ x, (ptsOf (cur.flatMap (childrenOf split))).count x = (cur.flatMap (·.2)).count x := by
+  intro cur
+  induction cur with
+  | nil => intro _ x; simp [ptsOf]
+  | cons e rest ih =>
+    intro h x
+    have h1 := (h e (by simp)).1 x
+    have h2 := ih (fun e' he' => h e' (List.mem_cons_of_mem _ he')) x
+    simp only [ptsOf, List.flatMap_cons, List.flatMap_append, List.count_append] at h1 h2 ⊢
+    omega
+
+theorem forall₂_children (d : Nat → Nat → Int) (split : List Nat → Clusters) :
+    ∀ cur : List (Option Nat × List Nat), (∀ e ∈ cur, ChildOk d e.2 (childrenOf split e)) →
+    List.Forall₂ (ChildOk d) (cur.map (·.2)) (cur.map (childrenOf split)) := by
+  intro cur
+  induction cur with
+  | nil => intro _; exact List.Forall₂.nil
+  | cons e rest ih =>
+    intro h
+    exact List.Forall₂.cons (h e (by simp)) (ih (fun e' he' => h e' (List.mem_cons_of_mem _ he')))
+
+/-- INDEPENDENT SPEC of a hierarchy: every tier is a partition of all points with pairwise different medoids and
+    decomposes into one valid split (`ChildOk`) per cluster of the previous tier (`parents`), in order -/
+def TiersOk (d : Nat → Nat → Int) (points : List Nat) : List (List Nat) → List Clusters → Prop
+  | _, [] => True
+  | parents, tier :: rest =>
+    (∃ parts : List Clusters, tier = parts.flatten ∧ List.Forall₂ (ChildOk d) parents parts) ∧
+    (∀ x, (ptsOf tier).count x = points.count x) ∧ (keysOf tier).Nodup ∧
+    TiersOk d points (tier.map (·.2)) rest
+
+theorem map_snd_children (split : List Nat → Clusters) : ∀ cur : List (Option Nat × List Nat),
+    (cur.flatMap (childrenOf split)).map (·.2) = (cur.flatMap (nextOf split)).map (·.2) := by
+  intro cur
+  induction cur with
+  | nil => rfl
+  | cons e rest ih =>
+    simp only [List.flatMap_cons, List.map_append, ih]
+    congr 1
+    unfold childrenOf nextOf
+    split
+    · split <;> simp
+    · simp [List.map_map, Function.comp]
+
+theorem curOk_next (d : Nat → Nat → Int) (split : List Nat → Clusters) (points : List Nat)
+    (cur : List (Option Nat × List Nat)) (C : CurOk points cur)
+    (hch : ∀ e ∈ cur, ChildOk d e.2 (childrenOf split e)) : CurOk points (cur.flatMap (nextOf split)) := by
+  constructor
+  · intro x
+    have h1 := count_children d split cur hch x
+    have h2 : ((cur.flatMap (nextOf split)).flatMap (·.2)) = ptsOf (cur.flatMap (childrenOf split)) := by
+      unfold ptsOf
+      rw [List.flatMap_def, List.flatMap_def, ← map_snd_children]
+      rw [List.map_map]
+      rfl
+    rw [h2, h1, C.count]
+  · intro e' he'
+    rw [List.mem_flatMap] at he'
+    obtain ⟨e, he, hin⟩ := he'
+    unfold nextOf at hin
+    split at hin
+    · split at hin
+      · simp at hin
+      · simp only [List.mem_singleton] at hin; subst hin; exact C.entry e he
+    · rename_i hs
+      rw [List.mem_map] at hin
+      obtain ⟨kv, hkv, rfl⟩ := hin
+      have hc := hch e he
+      unfold childrenOf at hc
+      simp only [hs, if_false] at hc
+      have := hc.2.1 kv hkv
+      exact ⟨fun hnil => by simp only at hnil; rw [hnil] at this; simp at this,
+        fun m hm => by simp only [Option.some.injEq] at hm; subst hm; exact this⟩
+
+/-- **C17 (hierarchical k-medoids)**: every tier returned by the scan is a partition of all points and
+    decomposes into valid splits of the previous tier's clusters -/
+theorem hier_contract (d : Nat → Nat → Int) (split : List Nat → Clusters) (S : SplitOk d split) (points : List Nat)
+    (hp : points.Nodup) : ∀ (t : Nat) (cur : List (Option Nat × List Nat)), CurOk points cur →
+    TiersOk d points (cur.map (·.2)) (hier split t cur) := by
+  intro t
+  induction t with
+  | zero => intro cur _; simp [hier, TiersOk]
+  | succ t ih =>
+    intro cur C
+    have hnd := entry_nodup hp C
+    have hch : ∀ e ∈ cur, ChildOk d e.2 (childrenOf split e) :=
+      fun e he => childrenOf_ok d split S e (hnd e he) (C.entry e he).1 (C.entry e he).2
+    have hcount : ∀ x, (ptsOf (cur.flatMap (childrenOf split))).count x = points.count x :=
+      fun x => by rw [count_children d split cur hch x, C.count]
+    have hkeys : (keysOf (cur.flatMap (childrenOf split))).Nodup := by
+      apply keys_nodup_of_pts_nodup _ (nodup_of_count_eq hp hcount)
+      intro kv hkv
+      rw [List.mem_flatMap] at hkv
+      obtain ⟨e, he, hin⟩ := hkv
+      exact (hch e he).2.1 kv hin
+    have hstep := hierStep_eq split cur [] [] (by simpa [keysOf] using hkeys)
+    simp only [List.nil_append] at hstep
+    simp only [hier, hstep]
+    split
+    · simp [TiersOk]
+    · split
+      · refine ⟨⟨cur.map (childrenOf split), List.flatMap_def, forall₂_children d split cur hch⟩, hcount, hkeys, ?_⟩
+        rw [map_snd_children]
+        exact ih _ (curOk_next d split points cur C hch)
+      · simp [TiersOk]
+
+/-- the observed entry point -/
+theorem createHier_contract (d : Nat → Nat → Int) (split : List Nat → Clusters) (S : SplitOk d split) (points : List Nat)
+    (hp : points.Nodup) (maxTiers : Nat) : TiersOk d points [points] (createHier split points maxTiers) := by
+  unfold createHier
+  by_cases he : points.isEmpty = true
+  · simp [he, TiersOk]
+  · have he' : points.isEmpty = false := by simpa using he
+    simp only [he', Bool.false_eq_true, if_false]
+    have hne : points ≠ [] := by simpa using he
+    exact hier_contract d split S points hp maxTiers [(none, points)]
+      ⟨by simp, by intro e he; simp at he; subst he; exact ⟨hne, by simp⟩⟩
+
+/-- consequence: every cluster of a tier lies inside one cluster of the previous tier -/
+theorem childOk_refines (d : Nat → Nat → Int) : ∀ (parents : List (List Nat)) (parts : List Clusters),
+    List.Forall₂ (ChildOk d) parents parts → ∀ kv ∈ parts.flatten, ∃ par ∈ parents, ∀ x ∈ kv.2, x ∈ par := by
+  intro parents parts h
+  induction h with
+  | nil => intro kv hkv; simp at hkv
+  | cons hab _ ih =>
+    rename_i par part ps pts
+    intro kv hkv
+    simp only [List.flatten_cons, List.mem_append] at hkv
+    rcases hkv with hkv | hkv
+    · refine ⟨par, by simp, ?_⟩
+      intro x hx
+      have : x ∈ ptsOf part := List.mem_flatMap.mpr ⟨kv, hkv, hx⟩
+      rw [← List.count_pos_iff, hab.1 x] at this
+      exact List.count_pos_iff.mp this
+    · obtain ⟨p', hp', hin⟩ := ih kv hkv
+      exact ⟨p', List.mem_cons_of_mem _ hp', hin⟩
+
+end C17.KMed
